@@ -35,11 +35,30 @@ func TestVerifC21Operator(t *testing.T) {
 		t.Fatalf("etcd client: %v", err)
 	}
 	defer cli.Close()
+	publish := c21Publisher(t, endpoints)
+	n := r.N(30, 250)
+	for ci := 0; ci < n; ci++ {
+		wctx, cancel := context.WithTimeout(context.Background(), 20*time.Second)
+		_, err := cli.Delete(wctx, "/kafscale/", clientv3.WithPrefix())
+		cancel()
+		if err != nil {
+			r.Inconclusive(fmt.Sprintf("case %d: wipe: %v", ci, err))
+			continue
+		}
+		env := metadata.VerifC21Env{R: r, KV: cli.KV, Publish: publish, Sync: ci%3 == 2}
+		metadata.VerifC21RunCase(env, ci, r.Rand(ci))
+	}
+	r.Floor("steps_publish", 20)
+	r.Floor("cases_with_publish_over_acked_topic", 5)
+	r.Floor("cases_with_obligations", 10)
+}
+
+func c21Publisher(t *testing.T, endpoints []string) func(ctx context.Context, res []metadata.VerifC21Resource, replicas int32) error {
 	scheme := runtime.NewScheme()
 	if err := kafscalev1alpha1.AddToScheme(scheme); err != nil {
 		t.Fatalf("scheme: %v", err)
 	}
-	publish := func(ctx context.Context, res []metadata.VerifC21Resource, replicas int32) error {
+	return func(ctx context.Context, res []metadata.VerifC21Resource, replicas int32) error {
 		cluster := &kafscalev1alpha1.KafscaleCluster{
 			ObjectMeta: metav1.ObjectMeta{Name: "c21", Namespace: "kafscale", UID: "c21-uid"},
 			Spec:       kafscalev1alpha1.KafscaleClusterSpec{Brokers: kafscalev1alpha1.BrokerSpec{Replicas: &replicas}},
@@ -55,19 +74,26 @@ func TestVerifC21Operator(t *testing.T) {
 		c := fake.NewClientBuilder().WithScheme(scheme).WithObjects(objs...).Build()
 		return NewSnapshotPublisher(c).Publish(ctx, cluster, endpoints)
 	}
-	n := r.N(30, 600)
-	for ci := 0; ci < n; ci++ {
-		wctx, cancel := context.WithTimeout(context.Background(), 20*time.Second)
-		_, err := cli.Delete(wctx, "/kafscale/", clientv3.WithPrefix())
-		cancel()
-		if err != nil {
-			r.Inconclusive(fmt.Sprintf("case %d: wipe: %v", ci, err))
-			continue
-		}
-		env := metadata.VerifC21Env{R: r, KV: cli.KV, Publish: publish, Sync: ci%3 == 2}
-		metadata.VerifC21RunCase(env, ci, r.Rand(ci))
+}
+
+// Leg opstress: brokers with their real snapshot watchers run admin ops while the operator reconciles concurrently.
+func TestVerifC21OpStress(t *testing.T) {
+	r := verifkit.Start(t, "C21", "opstress")
+	defer r.Finish("[stress with operator] as leg stress (3 EtcdStore values with real watchers, 6-9 concurrent admin ops each) while an operator goroutine runs 3-6 SnapshotPublisher.Publish reconciliations (resources naming broker topics with 1-4 partitions and operator-only topics) against the same etcd; sentinel topic, then conservation oracle on acknowledged broker admin ops; the revision-ordered history of the snapshot key (harness watch) attributes a loss to a tagged broker Put (stale or current copy) or to an untagged write (= operator publish); non-trivial = history with obligations in which broker writes and operator writes interleave",
+		"an untagged write to the snapshot key can only be the operator's (the harness sentinel is recognised by its revision)",
+		"sentinel not visible within the watchdog => inconclusive")
+	t.Setenv(operatorEtcdSilenceLogsEnv, "true")
+	endpoints := testutil.StartEmbeddedEtcd(t)
+	cli, err := clientv3.New(clientv3.Config{Endpoints: endpoints, DialTimeout: 5 * time.Second})
+	if err != nil {
+		t.Fatalf("etcd client: %v", err)
 	}
-	r.Floor("steps_publish", 20)
-	r.Floor("cases_with_publish_over_acked_topic", 5)
-	r.Floor("cases_with_obligations", 10)
+	defer cli.Close()
+	publish := c21Publisher(t, endpoints)
+	n := r.N(6, 40)
+	for ci := 0; ci < n; ci++ {
+		metadata.VerifC21StressCase(metadata.VerifC21StressEnv{R: r, Cli: cli, Endpoints: endpoints, Publish: publish, Prefix: "opstress"}, ci, r.Rand(ci))
+	}
+	r.Floor("opstress_cases_judged", 4)
+	r.Floor("opstress_operator_publishes_ok", 5)
 }
